@@ -78,7 +78,7 @@ def run_property(pid, tier='quick', seed=0):
 
     known = [k for k in load_known() if k.get('property') == pid]
     problems, violations, known_hits = [], [], []
-    n_obl = n_ok = 0
+    n_obl = n_ok = n_bounded = n_bounded_ok = 0
     by_backend = {}
     samples = []
     fn_under_contract = []
@@ -118,6 +118,13 @@ def run_property(pid, tier='quick', seed=0):
             if o['lib']:
                 if o['status'] != 'SUCCESS':
                     problems.append('%s: instrumentation self-check %s %s' % (u.id, o['name'], o['status']))
+                continue
+            if u.bounded:
+                n_bounded += 1
+                if o['status'] == 'SUCCESS':
+                    n_bounded_ok += 1
+                else:
+                    violations.append((u, r, o))
                 continue
             n_obl += 1
             by_backend.setdefault(o['backend'], [0, 0.0])
@@ -235,6 +242,8 @@ def run_property(pid, tier='quick', seed=0):
         'skipped_in_quick': skipped,
         'extraction_dropped': all_dropped,
         'units': len(units),
+        'bounded_standins': {'obligations': n_bounded, 'passed': n_bounded_ok, 'units': [{'unit': u.id, 'bound': u.bounded} for u in units if u.bounded],
+                             'note': 'bounded checks are never counted under obligations/discharged'},
         'tree_hash': core.tree_hash(),
         'known_findings_matched': [k[0].get('what') for k in known_hits],
     }
